@@ -149,22 +149,19 @@ def scale (h : Heap) (o : Obj) (c : Rat) : Heap × Obj :=
     | none => (h1, none)
   (h2, { o with se3? := se3', pos? := pos' })
 
+/-- a new array derived from an optional existing one -/
+def optAlloc (h : Heap) (x : Option Nat) (f : Nat → Val) : Heap × Option Nat :=
+  match x with
+  | some a => ((h.alloc (f a)).1, some (h.alloc (f a)).2)
+  | none => (h, none)
+
 /-- `reduce_to_ids()`: fancy indexing copies the arrays; the matrix list is rebuilt from the
 *same* matrix arrays -/
 def reduce (h : Heap) (o : Obj) (ids : List Nat) : Heap × Obj :=
-  let (h1, pos') :=
-    match o.pos? with
-    | some a => let (h1, b) := h.alloc (.vecs (reduceIds (h.vecs a) ids)); (h1, some b)
-    | none => (h, none)
-  let (h2, quat') :=
-    match o.quat? with
-    | some a => let (h2, b) := h1.alloc (.rots (reduceIds (h.rots a) ids)); (h2, some b)
-    | none => (h1, none)
-  let (h3, st') :=
-    match o.stamps? with
-    | some a => let (h3, b) := h2.alloc (.rats (reduceIds (h.rats a) ids)); (h3, some b)
-    | none => (h2, none)
-  (h3, { o with pos? := pos', quat? := quat', stamps? := st', se3? := o.se3?.map (reduceIds · ids) })
+  let r1 := optAlloc h o.pos? (fun a => .vecs (reduceIds (h.vecs a) ids))
+  let r2 := optAlloc r1.1 o.quat? (fun a => .rots (reduceIds (h.rots a) ids))
+  let r3 := optAlloc r2.1 o.stamps? (fun a => .rats (reduceIds (h.rats a) ids))
+  (r3.1, { o with pos? := r1.2, quat? := r2.2, stamps? := r3.2, se3? := o.se3?.map (reduceIds · ids) })
 
 /-- the in-place loop of `project()`: `pose[nd, 3] = 0; pose[:3, :3] = …` on each array in turn -/
 def projWrite (nd : Nat) : Heap → List Nat → List (M3 Rat) → Heap
@@ -223,14 +220,14 @@ def copyCell (h : Heap) : Option Nat → Heap × Option Nat
 
 /-- `copy.deepcopy(obj)`: every array is duplicated -/
 def deepcopy (h : Heap) (o : Obj) : Heap × Obj :=
-  let (h1, p) := copyCell h o.pos?
-  let (h2, q) := copyCell h1 o.quat?
-  let (h3, s) := copyCell h2 o.stamps?
-  match o.se3? with
-  | none => (h3, ⟨p, q, none, s, o.projected⟩)
-  | some as =>
-      let (h4, bs) := h3.allocList (as.map h.get)
-      (h4, ⟨p, q, some bs, s, o.projected⟩)
+  let r1 := copyCell h o.pos?
+  let r2 := copyCell r1.1 o.quat?
+  let r3 := copyCell r2.1 o.stamps?
+  let r4 : Heap × Option (List Nat) :=
+    match o.se3? with
+    | none => (r3.1, none)
+    | some as => ((r3.1.allocList (as.map h.get)).1, some (r3.1.allocList (as.map h.get)).2)
+  (r4.1, ⟨r1.2, r2.2, r4.2, r3.2, o.projected⟩)
 
 /-- one output of `associate_trajectories`: deep copy, then `reduce_to_ids(matching ids)` -/
 def associateOne (h : Heap) (o : Obj) (ids : List Nat) : Heap × Obj :=
